@@ -121,6 +121,13 @@ class AFMWriter(ModelToText):
 
         return result
 
+    def read_operand(self, node: Node) -> str:
+        """Operands that are binary expressions are parenthesised to keep the structure."""
+        result = self.recursive_constraint_read(node)
+        if node.left and node.right:
+            result = " (" + result.strip() + ") "
+        return result
+
     def recursive_constraint_read(self, node: Node) -> str:
 
         data = node.data
@@ -129,11 +136,10 @@ class AFMWriter(ModelToText):
             data = 'IFF' if data == ASTOperation.EQUIVALENCE else data.value.upper()
 
         if node.left and node.right:
-            result = self.recursive_constraint_read(
-                node.left) + data + self.recursive_constraint_read(node.right)
+            result = self.read_operand(node.left) + data + self.read_operand(node.right)
         elif node.left or node.right:  # unary operator (NOT): the operand follows the operator
             operand = node.left if node.left else node.right
-            result = data + self.recursive_constraint_read(operand)
+            result = data + self.read_operand(operand)
         else:
             result = " " + data + " "
 
